@@ -184,7 +184,8 @@ func checkSeek(_ *testing.T, v *ev.Verdict, c SeekCase) {
 					want = avail
 				}
 				var wantErr []error // acceptable errors
-				if want < int64(op.N) {
+				if want < int64(op.N) || avail == 0 {
+					// (at the end a section reader answers EOF also to an empty buffer)
 					wantErr = []error{io.EOF}
 				} else if pos+want == size {
 					wantErr = []error{nil, io.EOF}
